@@ -185,7 +185,7 @@ def body(c):
                   "SDL %s: %s" % ("does not parse (%s)" % o["parse_error"] if o["parse_error"] else "differs from Describe(ts, opts)", why or o["panic"]))
     if unlocated:
         c.drift("%d string tokens could not be located at the position the parser reported (crate value used instead)" % unlocated)
-    if counts.get("ok", 0) < 500 or stats["parsed"] < 500:
+    if not c.violations and (counts.get("ok", 0) < 500 or stats["parsed"] < 500):
         raise vlib.ToolError("vacuity: verdict counts %s, parsed %d" % (counts, stats["parsed"]))
     c.cov["traces_validated_against_impl"] = len(obs)
     c.cov["exhaustive"] = True
